@@ -749,21 +749,16 @@ theorem view_cases {name : Asset → String} {w w' : World} {op : Op} {out : Out
       · rename_i hdr
         simp only [bind_ok_iff, pure_ok_iff, Prod.mk.injEq] at h
         obtain ⟨w1, h1, w2, h2, rfl, _⟩ := h
-        cases hk with
-        | routerOps ops mn tt =>
-          have tr0 : Tr (fun z => z = s) (fun _ => False) (fun _ => False) w w1 := .xfer rfl h1
-          have h2' : routerSwapOps name w1 s ops mn tt = .ok w2 := h2
-          refine route_res hinv tr0 (fun e => hsp e.symm) hF h2' ?_
-          have hdn : (w.pair d).isNone = true := by
-            cases hh : w.pair d with
-            | none => rfl
-            | some Q => simp [hh] at hd
-          simp only [swapsOn]
-          rw [if_pos ⟨hdn, hdr⟩]
-          simp only [h1]
-        | swap offer a b ms tt => cases h2
-        | withdraw => cases h2
-        | garbage => cases h2
+        obtain ⟨ops, mn, tt, rfl, _, _, h2'⟩ := routerReceive_ok h2
+        have tr0 : Tr (fun z => z = s) (fun _ => False) (fun _ => False) w w1 := .xfer rfl h1
+        refine route_res hinv tr0 (fun e => hsp e.symm) hF h2' ?_
+        have hdn : (w.pair d).isNone = true := by
+          cases hh : w.pair d with
+          | none => rfl
+          | some Q => simp [hh] at hd
+        simp only [swapsOn]
+        rw [if_pos ⟨hdn, hdr⟩]
+        simp only [h1]
       · cases h
   | pair s q f m =>
     simp only [exec] at h
@@ -794,22 +789,22 @@ theorem view_cases {name : Asset → String} {w w' : World} {op : Op} {out : Out
     have hr0 := (attach_same h0).1.router
     cases m with
     | swapOps ops mn tt =>
+      simp only [bind_ok_iff] at h1
+      obtain ⟨_, _, h1⟩ := h1
       refine route_res hinv tr0 (fun e => hsp e.symm) hF h1 ?_
       simp only [swapsOn, h0]
-    | swapOp o a tt => exact absurd ((C14.routerHop_ok h1).1.trans hr0) har
+    | swapOp o a tt =>
+      simp only [bind_ok_iff] at h1
+      obtain ⟨_, _, h1⟩ := h1
+      exact absurd ((C14.routerHop_ok h1).1.trans hr0) har
     | assertMin a prev mn rcv =>
       simp only [bind_ok_iff, pure_ok_iff] at h1
-      obtain ⟨_, h2, _⟩ := h1
+      obtain ⟨_, _, _, h2, _⟩ := h1
       exact absurd ((C14.routerAssertMin_ok h2).trans hr0) har
     | receive from_ amount hk =>
-      cases hk with
-      | routerOps ops mn tt =>
-        have h1' : routerSwapOps name w0 from_ ops mn tt = .ok w1 := h1
-        refine route_res hinv tr0 (fun e => hsp e.symm) hF h1' ?_
-        simp only [swapsOn, h0]
-      | swap offer a b ms tt => cases h1
-      | withdraw => cases h1
-      | garbage => cases h1
+      obtain ⟨ops, mn, tt, rfl, _, _, h1'⟩ := routerReceive_ok h1
+      refine route_res hinv tr0 (fun e => hsp e.symm) hF h1' ?_
+      simp only [swapsOn, h0]
   | factory s f m =>
     simp only [exec, bind_ok_iff, pure_ok_iff, Prod.mk.injEq] at h
     obtain ⟨w1, h1, rfl, _⟩ := h
@@ -852,21 +847,16 @@ theorem view_cases {name : Asset → String} {w w' : World} {op : Op} {out : Out
         rintro (e | e)
         · exact hop e.symm
         · exact hdp e.symm
-    · cases hk with
-      | routerOps ops mn tt =>
-        have tr0 : Tr (fun z => z = o) (fun _ => False) (fun _ => False) w w1 := .xferFrom rfl h1
-        have h2' : routerSwapOps name w1 sp ops mn tt = .ok w' := h2
-        refine route_res hinv tr0 (fun e => hop e.symm) hF h2' ?_
-        have hdn' : (w.pair d).isNone = true := by
-          cases hh : w.pair d with
-          | none => rfl
-          | some Q => simp [hh] at hdn
-        simp only [swapsOn]
-        rw [if_pos ⟨hdn', hdr⟩]
-        simp only [h1]
-      | swap offer a b ms tt => cases h2
-      | withdraw => cases h2
-      | garbage => cases h2
+    · obtain ⟨ops, mn, tt, rfl, _, _, h2'⟩ := routerReceive_ok h2
+      have tr0 : Tr (fun z => z = o) (fun _ => False) (fun _ => False) w w1 := .xferFrom rfl h1
+      refine route_res hinv tr0 (fun e => hop e.symm) hF h2' ?_
+      have hdn' : (w.pair d).isNone = true := by
+        cases hh : w.pair d with
+        | none => rfl
+        | some Q => simp [hh] at hdn
+      simp only [swapsOn]
+      rw [if_pos ⟨hdn', hdr⟩]
+      simp only [h1]
 
 /-! ### the invariant -/
 
